@@ -5,17 +5,19 @@ from ._util import H, KGroup
 def plan(tier, seed):
     D = ("write_with_options::<f64> with Dragonbox stubbed to a symbolic decimal: semantic oracle (decoded value == decimal rounded to max digits, "
          "half-even / truncate; >= min digits; notation by break points; trim_floats; configured punctuation)")
-    hs = [H("wf::d1_pos_3", D, "mantissa < 10^3, exp10 in -8..8, max/min digits 0..4, default breaks, symbolic punctuation/round/trim"),
-          H("wf::d1_sci_3", D, "mantissa < 10^3, exp10 in -340..300, max/min digits 0..4, default breaks"),
-          H("wf::d1_brk_3", D, "mantissa < 10^3, exp10 in -14..14, max/min digits 0..3, symbolic breaks |b|<=10")]
+    D2 = ("one notation writer called directly (no notation choice): decoded value == decimal rounded to max digits (half-even / truncate), "
+          ">= min digits, trim_floats for integral floats, fraction present otherwise")
+    hs = [H("wf::d2_sci_3", "write_float_scientific: " + D2, "mantissa < 10^3, sci exponent -320..300, max/min digits 0..4"),
+          H("wf::d2_pos_3", "write_float_positive_exponent: " + D2, "mantissa < 10^3, sci exponent 0..9, max/min digits 0..4"),
+          H("wf::d2_neg_3", "write_float_negative_exponent: " + D2, "mantissa < 10^3, sci exponent -6..-1, max/min digits 0..4")]
     if tier == "thorough":
-        hs += [H("wf::d1_pos_5", D, "mantissa < 10^5, exp10 in -10..10, max/min 0..6"), H("wf::d1_all_5", D, "mantissa < 10^5, all exponents, max/min 0..8, breaks |b|<=12")]
+        hs += [H("wf::d2_sci_5", D2, "mantissa < 10^5, max/min 0..6"), H("wf::d2_pos_5", D2, "mantissa < 10^5, sci exponent 0..12"), H("wf::d2_neg_5", D2, "mantissa < 10^5, sci exponent -8..-1")]
     return {
-        "kani": [KGroup("D", hs, timeout=3000 if tier == "quick" else 14400, jobs=3, mem_gb=16, stubbing=True)],
+        "kani": [KGroup("D", hs, timeout=2400 if tier == "quick" else 14400, jobs=3, mem_gb=16, stubbing=False)],
         "functions_encoded": ["lexical_write_float::algorithm::{write_float, write_float_scientific, write_float_positive_exponent, write_float_negative_exponent, write_digits_u64}",
                               "shared::{truncate_and_round_decimal, round_up, write_exponent}", "Options::buffer_size_const"],
-        "bounds": ["decimal, STANDARD format, f64; shortest-digit mantissas below the stated bound (no trailing zero), every decimal exponent, options in the stated ranges"],
-        "outside_claim": ["mantissas above the bound (17-digit outputs)", "min/max digits above 8, exponent breaks beyond +-12", "compact (Grisu) formatting layer", "power-of-two and generic radix writers", "format flags other than STANDARD"],
-        "stubs_and_assumes": ["algorithm::to_decimal is stubbed: (mant, exp) are decoded from the float's bits; Dragonbox itself is C02's subject"],
+        "bounds": ["decimal, STANDARD format, f64; shortest-digit mantissas below the stated bound (no trailing zero), options in the stated ranges; the three notation writers are driven directly with a symbolic (mant, exp)"],
+        "outside_claim": ["the notation choice by exponent break points and custom punctuation (the API-level harness wf::d1_* exceeds 50 min / 6.5 GB and is not part of the check)", "what happens to a '.0' produced by digit truncation under trim_floats (not specified)", "mantissas above the bound (17-digit outputs)", "min/max digits above 8, exponent breaks beyond +-12", "compact (Grisu) formatting layer", "power-of-two and generic radix writers", "format flags other than STANDARD"],
+        "stubs_and_assumes": ["the writers are called with a symbolic ExtendedFloat80 instead of running Dragonbox (C02's subject)"],
         "assumptions": ["valid options: min <= max, positive break > 0, negative break < 0, punctuation valid for the format"],
     }
